@@ -261,7 +261,17 @@ func c01Leaf(c *Ctx) {
 			continue
 		}
 		calls := eventsWhere(p, func(e *Event) bool { return isDynCall(e, userFn) })
-		recs := eventsWhere(p, func(e *Event) bool { return isCall(e, "record") })
+		// the execution counter is bumped by record() upstream; whether that is a method or written out in the leaf,
+		// what counts is one Add(1) on the execution's own executions counter
+		onExecCounter := func(e *Event) bool {
+			return e.Recv != nil && loadedField(e.Recv) == "executions" && rootOf(e.Recv.Args[0]) == exec
+		}
+		recs := eventsWhere(p, func(e *Event) bool {
+			if isCall(e, "record") {
+				return true
+			}
+			return isCall(e, "Add") && onExecCounter(e) && len(e.Args) == 1 && e.Args[0] == ev.TS.LinConst(1, e.Args[0].Typ)
+		})
 		if len(calls) != 1 {
 			ok = false
 			c.Fail(name, pos, fmt.Sprintf("the user function is invoked %d times on a path (expected exactly once)", len(calls)), pathTrace(ev, p))
@@ -281,7 +291,7 @@ func c01Leaf(c *Ctx) {
 				continue
 			}
 		}
-		if len(recs) != 1 || recs[0].Idx < calls[0].Idx || recs[0].Recv != exec {
+		if len(recs) != 1 || recs[0].Idx < calls[0].Idx || (recs[0].Recv != exec && !onExecCounter(recs[0])) {
 			ok = false
 			c.Fail(name, pos, "record() is not called exactly once on the execution after the user function returned", pathTrace(ev, p))
 			continue
